@@ -677,10 +677,14 @@ def discharge(ob, timeout_ms=10000, use_cvc5=False, quick=False):
     return Verdict(ob, 'undecided', solver='z3', time_s=time.time() - t0, reason=reason)
 
 
-def run_lemma(ctx, lemma):
+def run_lemma(ctx, lemma, name='lemma'):
     """A client lemma is a function(ctx) that builds symbolic values using the contracts' models
-    and records obligations with ctx.oblige / oblige_equal."""
+    and records obligations with ctx.oblige / oblige_equal.  An exception of the subject code that the
+    lemma does not handle is a failed obligation (the lemma expected the call to succeed)."""
     from .nplib import PI_AXIOMS
     for ax in PI_AXIOMS:
         ctx.assume(ax)
-    lemma(ctx)
+    try:
+        lemma(ctx)
+    except Raised as r:
+        ctx.oblige('%s::unexpected_exception[%s]' % (name, r.exc), False, info={'exc': r.exc, 'msg': str(r.msg)})
